@@ -172,7 +172,8 @@ func runC19(c *Ctx) {
 	if upf := c.Anchor("O2", pkgPodInfo, "PodInfo", "updatePodAdditionalFields"); upf != nil {
 		rt := p.fieldVars(pkgPodInfo, "PodInfo", "ResourceRequestType")
 		n := 0
-		for _, in := range instrsIn(upf, isStoreToField(rt)) {
+		for _, h := range p.deepFind(upf, isStoreToField(rt), 2) {
+			in := h.In
 			k, ok := in.(*ssa.Store).Val.(*ssa.Const)
 			if !ok {
 				continue
@@ -182,7 +183,7 @@ func runC19(c *Ctx) {
 				continue
 			}
 			n++
-			fs := fx.FactsAt(in)
+			fs := fx.factsAtDeep(h)
 			_, parsed := hasFact(fs, func(f Fact) bool { return f.Pol && f.T.Op == "bin" && f.T.Name == "==" && f.T.Args[0].Op == "extract" && f.T.Args[0].Name == "1" && f.T.Args[1].isNilConst() })
 			_, positive := hasFact(fs, func(f Fact) bool {
 				return f.Pol && f.T.Op == "bin" && f.T.Name == "<" && f.T.Args[0].String() == "const:0" && f.T.Args[1].Op == "extract"
@@ -243,10 +244,13 @@ func runC19(c *Ctx) {
 		// with sharing disabled: reject iff RequestsGPUFraction; and that predicate is "either annotation present"
 		paths := fx.retPaths(av, 0, WantNil)
 		for i, rp := range paths {
-			_, enabled := hasFact(rp.Facts, func(f Fact) bool { return f.Pol && f.T.lastField() == "gpuSharingEnabled" })
-			_, noReq := hasFact(rp.Facts, func(f Fact) bool { return !f.Pol && isCallNamed(f.T, "RequestsGPUFraction") })
-			_, validated := hasFact(rp.Facts, func(f Fact) bool { return factNilOf(f, true, func(t *Term) bool { return t.Fn != nil && t.Fn.Name() == "ValidateGpuRequests" }) })
-			c.Check((enabled || noReq) && validated, "O3", "RET", fmt.Sprintf("%s accepting path#%d", funcKey(av), i), rp.Pos, "(sharing enabled ∨ no sharing annotation) ∧ ValidateGpuRequests == nil", "admission can accept a pod with a sharing annotation while GPU sharing is disabled, or without validating its GPU request")
+			okSet := func(fs FactSet) bool {
+				_, enabled := hasFact(fs, func(f Fact) bool { return f.Pol && f.T.lastField() == "gpuSharingEnabled" })
+				_, noReq := hasFact(fs, func(f Fact) bool { return !f.Pol && isCallNamed(f.T, "RequestsGPUFraction") })
+				_, validated := hasFact(fs, func(f Fact) bool { return factNilOf(f, true, func(t *Term) bool { return t.Fn != nil && t.Fn.Name() == "ValidateGpuRequests" }) })
+				return (enabled || noReq) && validated
+			}
+			c.Check(fx.acceptWithExpansion(rp.Facts, okSet), "O3", "RET", fmt.Sprintf("%s accepting path#%d", funcKey(av), i), rp.Pos, "(sharing enabled ∨ no sharing annotation) ∧ ValidateGpuRequests == nil", "admission can accept a pod with a sharing annotation while GPU sharing is disabled, or without validating its GPU request")
 		}
 		if rq := p.Func(pkgCommonRes, "", "RequestsGPUFraction"); rq != nil {
 			keys := map[string]bool{}
